@@ -1,6 +1,6 @@
 (** C06 - the piece layout is an exact partition of the torrent's byte space onto files.
     Statements only: every theorem is closed by [exact] of a lemma of LayoutProofs.v. *)
-From TB Require Import Base LayoutModel LayoutSpec LayoutProofs.
+From TB Require Import Base LayoutModel LayoutSpec LayoutProofs TorrentModel RunModel GlueProofs.
 From Coq Require Import Sorted.
 Local Open Scope N_scope.
 
@@ -51,6 +51,14 @@ Theorem C06_segment_inside_file files L i s :
   nth_error files (s_file s) = Some (s_flen s) /\ 0 < s_len s /\ s_off s + s_len s <= s_flen s.
 Proof. exact (spec_piece_inside files L i s). Qed.
 
+(** For every torrent the loader returns ([torrent_ok], see C16_loaded_torrent_ok) the layout
+    model returns one piece per hash; no piece is empty, a one-segment piece has positive length,
+    and every segment lies inside the file it names and carries that file's declared length. *)
+Theorem C06_loaded_torrent_layout t : torrent_ok t ->
+  exists ps, layout (shape_of t) (t_piece_length t) (length (t_pieces t)) = Ok ps /\ length ps = length (t_pieces t) /\
+    forall p, In p ps -> p_segs p <> [] /\ (forall sg, p_segs p = [sg] -> s_len sg <> 0) /\ Forall (seg_fits (lens_of t)) (p_segs p).
+Proof. exact (torrent_layout t). Qed.
+
 (** Non-vacuity: a layout with empty files first, in the middle and last, file ends on piece ends. *)
 Example C06_example_hypotheses : [0;4;0;4;3;0] <> [] /\ 4 <= u64max /\ hashes_ok [0;4;0;4;3;0] 4 3.
 Proof. split; [discriminate|]. split; [unfold u64max; lia|]. unfold hashes_ok, total; cbn. lia. Qed.
@@ -75,3 +83,4 @@ Print Assumptions C06_every_byte_covered.
 Print Assumptions C06_byte_in_one_piece.
 Print Assumptions C06_segments_in_file_order.
 Print Assumptions C06_segment_inside_file.
+Print Assumptions C06_loaded_torrent_layout.
